@@ -559,6 +559,14 @@ pub mod plain {
     }
 }
 
+/// A list node whose comparisons recurse through `Cc` (C20: Eq / Ord on Cc<T> are those of T, also when the left
+/// operand is cyclic and the right one is a finite unrolling of it).
+#[derive(Trace, Finalize, PartialEq, Eq, PartialOrd, Ord)]
+pub struct Link {
+    pub v: i64,
+    pub next: std::cell::RefCell<Option<Cc<Link>>>,
+}
+
 /// A payload the harness does not track at all (used by self-contained probes).
 pub struct Plain(pub i32);
 unsafe impl Trace for Plain {
